@@ -63,10 +63,15 @@ func admit(l C14Lit) (src string, want string, okPlace bool) {
 	switch l.Place {
 	case "text", "msgtext":
 		// raw template text: no braces, no comment openers; it is normalised by the line-joining rule
-		s = strings.NewReplacer("{", "(", "}", ")", "//", "/ /", "/*", "/ *").Replace(s)
-		if strings.HasSuffix(s, "/") {
-			s += "."
+		s = strings.NewReplacer("{", "(", "}", ")").Replace(s)
+		var sb strings.Builder
+		for i := 0; i < len(s); i++ {
+			sb.WriteByte(s[i])
+			if s[i] == '/' && (i+1 == len(s) || s[i+1] == '/' || s[i+1] == '*') {
+				sb.WriteByte('.') // never a comment opener
+			}
 		}
+		s = sb.String()
 		if l.Place == "msgtext" {
 			// (inside msg, text that looks like an HTML tag becomes a placeholder; its characters are kept)
 		}
